@@ -10,6 +10,8 @@ pub enum J {
     S(String),
     A(Vec<J>),
     O(Vec<(String, J)>),
+    /// pre-serialized JSON, written verbatim
+    Raw(String),
 }
 
 impl J {
@@ -55,6 +57,7 @@ impl J {
                 }
                 out.push('"');
             },
+            J::Raw(r) => out.push_str(r),
             J::A(v) => {
                 out.push('[');
                 for (i, x) in v.iter().enumerate() {
